@@ -383,12 +383,14 @@ int main(int argc, char** argv) {
             Random::Uniform U(R.lo, R.hi);
             U.setSeed(4321);
             ImplMirror* m = reinterpret_cast<ImplMirror*>(U.impl);
-            // validate the mirror's layout against the reference stream before trusting it
-            RefSFMT ref; ref.init(4321);
-            uint64_t first = ref.next64(); uint64_t w1023 = 0; for (int i = 1; i < 1024; ++i) w1023 = ref.next64();
+            // validate the mirror's layout before trusting it: after one getValue() the buffer must hold exactly what the
+            // library's own fill_array64 produces for this seed (independent of the reference SFMT, so that an SFMT
+            // defect is reported by the sfmt section and not as a harness error here)
+            std::vector<uint64_t> own(1024);
+            { SimTK_SFMT::SFMTData* d = SimTK_SFMT::createSFMTData(); SimTK_SFMT::init_gen_rand(4321, *d); SimTK_SFMT::fill_array64(own.data(), 1024, *d); SimTK_SFMT::deleteSFMTData(d); }
             bool layoutOk = m->nextIndex == 1024;
             (void)U.getValue();
-            layoutOk = layoutOk && m->nextIndex == 1 && m->buffer[0] == first && m->buffer[1023] == w1023;
+            layoutOk = layoutOk && m->nextIndex == 1 && m->buffer[0] == own[0] && m->buffer[511] == own[511] && m->buffer[1023] == own[1023];
             if (!layoutOk) { run.harnessError("Random::RandomImpl layout differs from the harness mirror; extremes section cannot inject words"); return; }
             run.evaluation(verif::hashStr(tag), true);
             // two mechanisms can reach max: the word -> [0,1) conversion rounds up to exactly 1.0, or min + u*range rounds up to max
